@@ -18,9 +18,10 @@ META = {
         'IFERROR/IFNA {0}); (lazyeval) such a function never examines a branch '
         'argument for errors and receives its arguments unconverted, so the '
         'circular error placed on a cut branch is not seen unless selected; '
-        '(err) the circular error is a module-level XlError instance; (skip) '
+        ' (err) the circular error is a module-level XlError instance; (skip) '
         'both cycle analyses exclude inverse range assemblers; (ord) the node '
-        'at which a cycle is cut is chosen from a sorted sequence.'),
+        'at which a cycle is cut is chosen from a sorted sequence.'
+        ' (fresh) every container the cycle search mutates is created inside the per-component loop, so no blocking state leaks from one start node to the next; (accum) the inputs to cut are added to the per-node entry collected over all cycles, never assigned over it, and the callee does not read that map to decide.'),
     'not_decided': (
         'Termination, completeness of the elementary-cycle enumeration, and '
         'the values of cells off the cycles.'),
@@ -241,6 +242,19 @@ def rule_skip(ctx):
                         r = ctx.cg.resolve_name_expr(f, c.args[1])
                         if r and r[0] == 'class' and r[1] is inv:
                             skip_names.add(n.targets[0].id)
+        # ... or filled in a loop: `if isinstance(x, InvRangesAssembler): S.add(k)`
+        for n in own_nodes(f):
+            if isinstance(n, ast.If) and any(
+                    isinstance(c, ast.Call) and isinstance(c.func, ast.Name)
+                    and c.func.id == 'isinstance' and len(c.args) == 2 and (
+                        ctx.cg.resolve_name_expr(f, c.args[1]) or (None, None)
+                    )[1] is inv for c in ast.walk(n.test)):
+                for s_ in n.body:
+                    for c in ast.walk(s_):
+                        if isinstance(c, ast.Call) and call_name(c) in (
+                                'add', 'append') and isinstance(
+                                c.func.value, ast.Name):
+                            skip_names.add(c.func.value.id)
         if not skip_names:
             rr.fail(key_of(f, 'inverse assemblers not excluded'),
                     '%s no longer computes the set of InvRangesAssembler nodes: '
@@ -447,6 +461,45 @@ def rule_accum(ctx):
                                     t.value, ast.Name):
                                 if not _guarded_new_key(g, n, prm, t):
                                     bad = n
+                # ... and the callee does not decide from what earlier calls
+                # stored there
+                peek = None
+                for n in own_nodes(g):
+                    if isinstance(n, ast.Subscript) and isinstance(
+                            n.ctx, ast.Load) and isinstance(
+                            n.value, ast.Name) and n.value.id == prm:
+                        peek = peek or n
+                    if isinstance(n, ast.Call) and isinstance(
+                            n.func, ast.Attribute) and n.func.attr in (
+                            'get', 'items', 'values', 'keys') and isinstance(
+                            n.func.value, ast.Name) and n.func.value.id == prm:
+                        peek = peek or n
+                    if isinstance(n, ast.If) and any(
+                            isinstance(c, ast.Compare) and any(
+                                isinstance(o, (ast.In, ast.NotIn))
+                                for o in c.ops) and any(
+                                isinstance(x, ast.Name) and x.id == prm
+                                for x in c.comparators)
+                            for c in ast.walk(n.test)) and any(
+                            isinstance(r_, ast.Return)
+                            for s_ in n.body + n.orelse
+                            for r_ in ast.walk(s_)):
+                        peek = peek or n
+                if peek is not None and bad is None:
+                    rr.fail(key_of(g, 'decides from the accumulated map'),
+                            '%s reads `%s` (`%s`, line %d), the mapping %s '
+                            'fills over all cycles, to produce its answer: '
+                            'what an earlier cycle stored for this node is '
+                            'taken for the current cycle, which is then '
+                            'treated as opened although none of its own '
+                            'edges was cut' % (
+                                g.qualname, prm, norm_src(peek)[:50]
+                                if not isinstance(peek, ast.If) else
+                                norm_src(peek.test)[:50], peek.lineno,
+                                sc.qualname),
+                            file=g.module.rel, function=g.qualname,
+                            line=peek.lineno)
+                    continue
                 if bad is None:
                     rr.ok('%s only adds to the entries of `%s` (the mapping '
                           '%s collects over all cycles)' % (
